@@ -63,9 +63,9 @@ func init() {
 			"translation bundle; the returned string must equal byte for byte what Tofu.Render writes. Renders the Go backend fails are dropped. distinct = distinct (sources, data, bundle?); non-trivial = all executed on both sides",
 		N: func(tier string) int {
 			if tier == "thorough" {
-				return 40000
+				return 150000
 			}
-			return 2000
+			return 6000
 		},
 		Setup: func(tier string, seed uint64, config string) string {
 			if _, err := engine(); err != nil {
@@ -80,7 +80,7 @@ func init() {
 			g.O = c04Opts(ctx.Rng, ctx.Tier)
 			g.O.Globals, g.O.IJ = true, true
 			prog := g.Bundle(1+ctx.Rng.Intn(3), 2+ctx.Rng.Intn(4))
-			files := bundleSources(prog.B, ref.Layout{})
+			files := bundleSources(prog.B, ref.Layout{Multiline: i%5 == 1, CRLF: i%7 == 3})
 			files = append(files, c04ProbeFile())
 			reg, err := compileRegistry(files, prog.B.Globals)
 			if err != nil {
